@@ -56,6 +56,40 @@ theorem live_put_ne (s : Store) (now : Nat) (k k' : Key) (e : Nat) (h : k' ≠ k
     live (put s k e) now k' = live s now k' := by
   simp [live, lookup_put_ne s k k' e h]
 
+theorem lookup_filter_keys (f : Key → Bool) (s : Store) (k : Key) :
+    lookup (s.filter (fun p => f p.1)) k = if f k then lookup s k else none := by
+  induction s with
+  | nil => simp [lookup]
+  | cons p r ih =>
+    by_cases hp : f p.1
+    · simp only [List.filter, hp]
+      unfold lookup
+      by_cases e : p.1 = k
+      · simp only [e, if_true]; rw [← e, hp]; simp
+      · simp only [e, if_false]; exact ih
+    · have hp' : f p.1 = false := by simpa using hp
+      simp only [List.filter, hp']
+      rw [ih]
+      conv => rhs; unfold lookup
+      by_cases e : p.1 = k
+      · rw [← e, hp']; simp
+      · simp only [e, if_false]
+
+/-- A sweep keeps the entry of every live key and drops the rest. -/
+theorem lookup_sweep (s : Store) (now : Nat) (k : Key) :
+    lookup (sweep s now) k = if live s now k then lookup s k else none :=
+  lookup_filter_keys (live s now) s k
+
+theorem lookup_sweep_live (s : Store) (now : Nat) (k : Key) (h : live s now k = true) :
+    lookup (sweep s now) k = lookup s k := by rw [lookup_sweep, h]; rfl
+
+/-- The expiry GC never makes an absent key live. -/
+theorem live_sweep_false (s : Store) (now : Nat) (k : Key) (h : live s now k = false) :
+    live (sweep s now) now k = false := by
+  unfold live
+  rw [lookup_sweep, h]
+  rfl
+
 theorem alive_mono (now dt e : Nat) (h : alive (now + dt) e = true) : alive now e = true := by
   unfold alive at *
   cases he : (e == 0) with
@@ -147,6 +181,8 @@ theorem inv_stepThread_cas (P : Params) (pre : Store) (c : Cfg) (tid : Nat)
   · exact h
   · -- rel
     unfold Inv at *; simp only; rw [replay_snoc, h]; rfl
+  · -- sweep
+    unfold Inv at *; simp only; rw [replay_snoc, h]; rfl
   · -- relOwn
     split
     · unfold Inv at *; simp only; rw [replay_snoc, h]; rfl
@@ -172,6 +208,7 @@ theorem inv_stepFault (P : Params) (pre : Store) (c : Cfg) (tid : Nat) (h : Inv 
   unfold stepFault
   split
   · exact h
+  · unfold Inv at *; simp only; rw [replay_snoc, h]; rfl
   · unfold Inv at *; simp only; rw [replay_snoc, h]; rfl
   · split
     · unfold Inv at *; simp only; rw [replay_snoc, h]; rfl
@@ -325,6 +362,7 @@ theorem invH_stepThread (P : Params) (c : Cfg) (tid : Nat) (hhb : P.hbSurvives =
   split
   · exact h
   · exact invH_plain c _ [_] rfl rfl (own_upd _ _ _ (fun k hk => ⟨hk, rfl⟩)) h
+  · exact invH_plain c _ [_] rfl rfl (own_upd _ _ _ (fun k hk => ⟨hk, rfl⟩)) h
   · split
     · exact invH_plain c _ [_] rfl rfl (own_upd _ _ _ (fun k hk => ⟨hk, rfl⟩)) h
     · rename_i k hk
@@ -354,6 +392,7 @@ theorem invH_stepFault (P : Params) (c : Cfg) (tid : Nat) (h : InvH c) : InvH (s
   unfold stepFault
   split
   · exact h
+  · exact invH_plain c _ [_] rfl rfl (own_upd _ _ _ (fun k hk => ⟨hk, rfl⟩)) h
   · exact invH_plain c _ [_] rfl rfl (own_upd _ _ _ (fun k hk => ⟨hk, rfl⟩)) h
   · split
     · exact invH_plain c _ [_] rfl rfl (own_upd _ _ _ (fun k hk => ⟨hk, rfl⟩)) h
@@ -428,6 +467,7 @@ theorem held_count (x : Nat × Key) (tr : List Ev) (s : Held × Bool)
     | rnw _ _ _ => simp only [heldStep, Bool.and_eq_true] at hs hc; exact ⟨hs.1, by simpa using hc⟩
     | nop _ => exact ⟨hs, by simpa [heldStep] using hc⟩
     | err _ => exact ⟨hs, by simpa [heldStep] using hc⟩
+    | swp _ => exact ⟨hs, by simpa [heldStep] using hc⟩
     | dead _ _ _ => simp [heldStep] at hs
     | tick _ => exact ⟨hs, by simpa [heldStep] using hc⟩
 
@@ -511,6 +551,19 @@ theorem still_live (ttl : Nat → Nat) (k : Key) (t0 : Nat) (mid : List Ev) (s :
     | nop t => exact ih _ hq.2 ht0 ⟨e, hl, he, hz⟩ (by simpa [specStep, elapsed] using hel) hg
     | err t => exact ih _ hq.2 ht0 ⟨e, hl, he, hz⟩ (by simpa [specStep, elapsed] using hel) hg
     | dead t _ _ => exact ih _ hq.2 ht0 ⟨e, hl, he, hz⟩ (by simpa [specStep, elapsed] using hel) hg
+    | swp t =>
+      have hlive : live s.store s.now k = true := by
+        simp only [live, hl, alive]
+        rcases he with he | he
+        · simp [he]
+        · rcases hel with hel | hel
+          · simp only [elapsed] at hel
+            have : s.now < e := by omega
+            simp [this]
+          · simp [hz hel]
+      exact ih _ hq.2 (by simpa [specStep] using ht0)
+        ⟨e, by simp [specStep, lookup_sweep_live _ _ _ hlive, hl], he, hz⟩
+        (by simpa [specStep, elapsed] using hel) hg
     | rel t kind id =>
       have hne : k ≠ (kind, id) := by
         have := hq.1; simp [quiet] at this; exact fun x => this x.symm
@@ -600,6 +653,15 @@ theorem lease_live (ttl : Nat → Nat) (k : Key) (mid : List Ev) (s : SpecSt) (b
     | nop t => simp only [leaseOk] at hl; exact ih _ b hq.2 hl hb hpos ⟨e, hl', he⟩
     | err t => simp only [leaseOk] at hl; exact ih _ b hq.2 hl hb hpos ⟨e, hl', he⟩
     | dead t _ _ => simp only [leaseOk] at hl; exact ih _ b hq.2 hl hb hpos ⟨e, hl', he⟩
+    | swp t =>
+      simp only [leaseOk] at hl
+      have hlive : live s.store s.now k = true := by
+        simp only [live, hl', alive]
+        rcases he with he | he
+        · simp [he]
+        · have : s.now < e := by omega
+          simp [this]
+      exact ih _ b hq.2 hl hb hpos ⟨e, by simp [specStep, lookup_sweep_live _ _ _ hlive, hl'], he⟩
     | tick dt =>
       simp only [leaseOk, Bool.and_eq_true, decide_eq_true_eq] at hl
       apply ih _ (b - dt) hq.2 hl.2 (by omega) (by omega)
@@ -688,6 +750,13 @@ theorem invF_stepThread (P : Params) (pre : Store) (I : Nat) (c : Cfg) (tid : Na
     · exact finishOp_noRenew _ (h.noRenew tid)
     · intro a; simp [finishOp]
     · intro k hk; exact live_erase_false _ _ _ _ hk
+  · -- sweep
+    apply invF_plain P pre I c tid _ _ _ h
+    · have := h.inv; unfold Inv at *; simp only; rw [replay_snoc, this]; rfl
+    · exact finishOp_inst _ I (h.inst tid)
+    · exact finishOp_noRenew _ (h.noRenew tid)
+    · intro a; simp [finishOp]
+    · intro k hk; exact live_sweep_false _ _ _ hk
   · -- relOwn
     split
     · apply invF_plain P pre I c tid _ c.store _ h
@@ -778,6 +847,12 @@ theorem invF_stepFault (P : Params) (pre : Store) (I : Nat) (c : Cfg) (tid : Nat
   unfold stepFault
   split
   · exact h
+  · apply invF_plain P pre I c tid _ c.store _ h
+    · have := h.inv; unfold Inv at *; simp only; rw [replay_snoc, this]; rfl
+    · exact finishOp_inst _ I (h.inst tid)
+    · exact finishOp_noRenew _ (h.noRenew tid)
+    · intro a; simp [finishOp]
+    · intro k hk; exact hk
   · apply invF_plain P pre I c tid _ c.store _ h
     · have := h.inv; unfold Inv at *; simp only; rw [replay_snoc, this]; rfl
     · exact finishOp_inst _ I (h.inst tid)
